@@ -34,7 +34,7 @@ def check(run, repo, world):
         "%s" % sorted(WEN_KEEP)]
     mod = repo.mod(LOC)
     sel = selectors(run, repo, world)
-    fn, cfg, ys, Q = method_cfg(world, MV, "write_raw")
+    fn, cfg, ys, Q = method_cfg(world, MV, "write_raw", lift_values=True)
     run.floor("write_raw yields", len(ys), 4)
     ynode = {y.node.id: y for y in ys}
     params = [a.arg for a in fn.args.args]
@@ -53,6 +53,22 @@ def check(run, repo, world):
             isinstance(x, ast.Raise) and "MemoryValueNotWriteable" in
             unparse(x, 300) for x in ast.walk(n.ast))]
     wloop_ids = {n.id for n in wloops}
+    # the same loop over a part of the locations only (a slice, a filter)
+    # leaves locations unchecked: a violation, not an unreadable form
+    partial = [n for n in cfg.reachable if n.kind == "for" and unparse(
+        n.ast.iter) != "cls.locations" and "cls.locations" in unparse(
+            n.ast.iter) and isinstance(n.ast.iter, ast.Subscript) and any(
+                isinstance(x, ast.Raise) and "MemoryValueNotWriteable" in
+                unparse(x, 300) for x in ast.walk(n.ast))]
+    if partial and not wloops:
+        run.rule("R-MEMW-PRE", "refusals (length, writability of all "
+                 "locations) precede the first command")
+        run.ob("R-MEMW-PRE", Q + "#writability-loop", False,
+               "the writability check only looks at `%s`: a value with a "
+               "read-only location outside that part is not refused before "
+               "commands are sent" % unparse(partial[0].ast.iter),
+               where(mod, partial[0]))
+        return
 
     def transfer(node, st):
         st = kill_conds_on_assign(node, st)
@@ -365,20 +381,75 @@ def check(run, repo, world):
     run.ob("R-MEMW-ENABLE", Q + "#DTR0-per-location", ok,
            "DTR0 := location.address must be issued exactly when the local "
            "tracker differs", where(mod, fn))
-    defs = sorted(unparse(n.ast.value) for n in cfg.reachable
-                  if n.kind == "stmt" and isinstance(n.ast, ast.Assign)
-                  and unparse(n.ast.targets[0]) == "dtr0")
+    dnodes = [n for n in cfg.reachable
+              if n.kind == "stmt" and isinstance(n.ast, ast.Assign)
+              and unparse(n.ast.targets[0]) == "dtr0"]
+    defs = sorted(unparse(n.ast.value) for n in dnodes)
+    # the tracker is: unknown (None) or just past the lock byte (3) before
+    # the data loop, the address loaded, and one more after a write with
+    # the unit's saturation at 255 - written with min() or as the two arms
+    # of a test against 255
+    okt = True
+    kinds = set()
+    adv = []
+    for n in dnodes:
+        t = unparse(n.ast.value)
+        if t == "None":
+            kinds.add("unknown")
+        elif t == "3":
+            kinds.add("past-lock")
+        elif t == "location.address":
+            kinds.add("loaded")
+        elif t in ("min(dtr0 + 1, 255)", "min(255, dtr0 + 1)",
+                   "min(1 + dtr0, 255)"):
+            kinds.add("advance")
+            adv.append(n)
+        elif t in ("dtr0 + 1", "1 + dtr0"):
+            lt = W.must(n, ("cond", "dtr0 < 255", True)) or W.must(
+                n, ("cond", "dtr0 >= 255", False)) or W.must(
+                    n, ("cond", "dtr0 == 255", False))
+            okt = okt and lt
+            kinds.add("advance")
+            adv.append(n)
+        elif t == "255":
+            sat = W.must(n, ("cond", "dtr0 < 255", False)) or W.must(
+                n, ("cond", "dtr0 >= 255", True)) or W.must(
+                    n, ("cond", "dtr0 == 255", True))
+            okt = okt and sat
+            adv.append(n)
+        else:
+            okt = False
     run.ob("R-MEMW-ENABLE", Q + "#tracker",
-           defs == ["3", "None", "location.address", "min(dtr0 + 1, 255)"],
+           okt and kinds == {"unknown", "past-lock", "loaded", "advance"},
            "tracker definitions are %s" % defs, where(mod, fn))
     # tracker advanced after each data write, before the next iteration
     for lp in dloops:
-        adv = [n for n in cfg.reachable if n.kind == "stmt" and unparse(
-            n.ast) == "dtr0 = min(dtr0 + 1, 255)"]
-        ok = len(adv) == 1 and _all_cycles_pass(lp, adv[0])
+        ok = bool(adv) and _all_cycles_pass_any(lp, adv)
         run.ob("R-MEMW-ENABLE", Q + "#tracker-advanced", ok,
                "the tracker must be advanced on every iteration of the data "
                "loop", where(mod, lp))
+
+    # the DTR0 post-check looks at what the data writes left in the unit's
+    # DTR0: nothing reloads DTR0 (a re-lock, say) between the last data
+    # write and the query, or a unit that never advanced would pass
+    ynode_ = {y.node.id: y for y in ys}
+    for y in ys:
+        if label(y, sel) != "QueryContentDTR0":
+            continue
+        prev = _prev_yields(y.node, ynode_)
+        # (with no data at all the query follows the write-enable or the
+        # unlock write; what must not come in between is a DTR0 load or
+        # the re-lock)
+        okp = bool(prev) and all(
+            p_ is not None and label(p_, sel) != "DTR0" and not (
+                label(p_, sel).startswith("WriteMemoryLocation") and
+                const_arg(p_, 1) == 0xFF) for p_ in prev)
+        run.ob("R-MEMW-CHECK", Q + "#post-check-follows-data-writes", okp,
+               "the command before the DTR0 post-check is %s on some path; "
+               "a DTR0 load or the re-lock write there replaces the value "
+               "the data writes left in the unit's DTR0" % sorted(
+                   {label(p_, sel) if p_ is not None else "entry"
+                    for p_ in prev}), where(mod, y.node))
 
     _check_write(run, repo, world, mod, sel)
     _check_value_to_raw(run, repo, world, mod)
@@ -552,6 +623,21 @@ def _forces_short_write(fnw):
             m.left) == kw and unparse(m.right) == "{'%s': True}" % K:
         return True
     return False
+
+
+def _all_cycles_pass_any(loop, nodes):
+    """Every cycle loop-head -> loop-head passes one of `nodes`."""
+    ids = {n.id for n in nodes}
+    seen, stack = set(), [m for (l, m) in loop.succ if l == "loop"]
+    while stack:
+        n = stack.pop()
+        if n.id in seen or n.id in ids:
+            continue
+        seen.add(n.id)
+        if n is loop:
+            return False
+        stack += [m for (l, m) in n.succ if l != "exc"]
+    return True
 
 
 def _check_write(run, repo, world, mod, sel):
